@@ -216,6 +216,36 @@ def core_dim_chunks(repo, rep, rule="R-C07-1"):
     return all_sites
 
 
+def gil_held(repo, rep, rule):
+    """The wrapper never releases the GIL around the native routine (whose work buffers are process-wide statics)."""
+    # ---- R-C07-2: GIL ---------------------------------------------------------------
+    wrap = CFile(os.path.join(repo.root, WRAP_C), filt="specpart", need_python=True)
+    core = CFile(os.path.join(repo.root, SPECPART_C))
+    ncalls = 0
+    for fname, fn in wrap.funcs.items():
+        for n in wrap.walk(fn):
+            if n.get("kind") == "CallExpr":
+                ncalls += 1
+                t = ex(n)
+                callee = show(t[1])
+                if callee in _GIL_RELEASE:
+                    rep.fail(rule, WRAP_C, wrap.line(n), fname, wrap.text(n)[:100],
+                             "the wrapper releases / re-acquires the GIL around the native routine, whose work buffers are "
+                             "process-wide statics: two dask threads can interleave inside partition()")
+            if n.get("kind") == "DeclRefExpr" and n.get("referencedDecl", {}).get("name") in _GIL_RELEASE:
+                pass
+    # textual macro guard as a second witness (macros vanish in the AST only through expansion, which the rule above sees)
+    for tok in ("Py_BEGIN_ALLOW_THREADS", "Py_UNBLOCK_THREADS", "Py_MOD_GIL_NOT_USED", "Py_mod_gil"):
+        if tok in _strip_comments(wrap.src):
+            rep.fail(rule, WRAP_C, 1 + wrap.src[: wrap.src.index(tok)].count("\n"), "specpart", tok,
+                     "GIL released / module declared free-threading safe while the routine uses static work buffers")
+    rep.ok(rule, WRAP_C, f"{ncalls} calls in the wrapper", "none releases the GIL; no Py_BEGIN_ALLOW_THREADS / Py_mod_gil")
+    return wrap, core
+
+
+from .cnative import wrapper_state as cnative_wrapper_state
+
+
 def run(repo, rep, tier):
     rep.rule("R-C07-1", "at every apply_ufunc(dask='parallelized') each argument with core dimensions is a dimension "
                         "coordinate, or is forced to a single chunk along them (chunk({d: -1}) reaching the call on every "
@@ -235,28 +265,7 @@ def run(repo, rep, tier):
     sub_before = len(rep.findings)
     wrapper_sizes(repo, _Relabel(rep, "R-C07-4"), lead)
 
-    # ---- R-C07-2: GIL ---------------------------------------------------------------
-    wrap = CFile(os.path.join(repo.root, WRAP_C), filt="specpart", need_python=True)
-    core = CFile(os.path.join(repo.root, SPECPART_C))
-    ncalls = 0
-    for fname, fn in wrap.funcs.items():
-        for n in wrap.walk(fn):
-            if n.get("kind") == "CallExpr":
-                ncalls += 1
-                t = ex(n)
-                callee = show(t[1])
-                if callee in _GIL_RELEASE:
-                    rep.fail("R-C07-2", WRAP_C, wrap.line(n), fname, wrap.text(n)[:100],
-                             "the wrapper releases / re-acquires the GIL around the native routine, whose work buffers are "
-                             "process-wide statics: two dask threads can interleave inside partition()")
-            if n.get("kind") == "DeclRefExpr" and n.get("referencedDecl", {}).get("name") in _GIL_RELEASE:
-                pass
-    # textual macro guard as a second witness (macros vanish in the AST only through expansion, which the rule above sees)
-    for tok in ("Py_BEGIN_ALLOW_THREADS", "Py_UNBLOCK_THREADS", "Py_MOD_GIL_NOT_USED", "Py_mod_gil"):
-        if tok in _strip_comments(wrap.src):
-            rep.fail("R-C07-2", WRAP_C, 1 + wrap.src[: wrap.src.index(tok)].count("\n"), "specpart", tok,
-                     "GIL released / module declared free-threading safe while the routine uses static work buffers")
-    rep.ok("R-C07-2", WRAP_C, f"{ncalls} calls in the wrapper", "none releases the GIL; no Py_BEGIN_ALLOW_THREADS / Py_mod_gil")
+    wrap, core = gil_held(repo, rep, "R-C07-2")
     pycalls = 0
     for fname, fn in core.funcs.items():
         for n in core.walk(fn):
@@ -301,22 +310,7 @@ def run(repo, rep, tier):
                      "a mutable default is one object shared by every call, hence by every concurrently running dask task: tasks "
                      "overwrite each other's intermediate data under the threaded scheduler", list(e0.via))
     rep.ok("R-C07-5", "package", f"{nk} kernels, {len(reach)} functions reachable from them", "no write to module-level objects or mutable defaults")
-    nstat = 0
-    for fname, fn in wrap.funcs.items():
-        for n in wrap.walk(fn):
-            if n.get("kind") == "VarDecl" and n.get("storageClass") == "static":
-                nstat += 1
-                rep.fail("R-C07-5", WRAP_C, wrap.line(n), fname, wrap.text(n)[:80],
-                         "a function-static object in the wrapper outlives the call: the array handed back to one task is reused / "
-                         "overwritten by the next call while the first task is still reading it")
-    for g in wrap.globals:
-        ty = g.get("type", {}).get("qualType", "")
-        if "PyMethodDef" in ty or "PyModuleDef" in ty or ty.startswith("const "):
-            continue
-        nstat += 1
-        rep.fail("R-C07-5", WRAP_C, wrap.line(g), "specpart_wrap.c", wrap.text(g)[:80],
-                 "file-scope mutable object in the wrapper: state shared between calls / tasks")
-    rep.ok("R-C07-5", WRAP_C, f"{len(wrap.funcs)} functions, {len(wrap.globals)} file-scope objects", "no static / file-scope mutable object")
+    cnative_wrapper_state(wrap, rep, "R-C07-5")
     # threads spawned in C
     for tok in ("pthread_create", "omp parallel", "#pragma omp", "thrd_create"):
         for f in (core, wrap):
